@@ -569,6 +569,8 @@ func (m *model) effect(f *Frame, cx mctx, e Effect, pos int) (ok bool) {
 			m.w.sstore(cx.addr, key, val)
 			j(val)
 		}
+	case ECallLeaf:
+		m.call(f, cx, KCall, Codeless, nil, 0, nil)
 	case EJournalRef:
 		name := RefName(m.s.Kid(f.ID), pos)
 		has := false
